@@ -3,6 +3,7 @@ package main
 import (
 	"strconv"
 	"strings"
+	"unicode/utf8"
 
 	"github.com/grindlemire/go-lucene/pkg/lucene/expr"
 	"github.com/grindlemire/go-lucene/verifharness/gen"
@@ -103,8 +104,21 @@ func specC10(c *Case, ps []*Probe) []string {
 		if p.Q != nil && !p.Q.AllOrNothing {
 			out = append(out, p.Q.AONDetail)
 		}
+		if p.Op == "spec" && p.Model["OK"] != "1" {
+			out = append(out, "accepted tree is not well-formed: "+strings.TrimPrefix(p.Model["OK"], "0:"))
+		}
 	}
 	return out
+}
+
+// asKind re-labels the cases of a generator (e.g. q → qwf to add the shape probe).
+func asKind(kind string, emit func(Case)) func(Case) {
+	return func(c Case) {
+		if c.Kind == "q" || c.Kind == "tree" {
+			c.Kind = kind
+		}
+		emit(c)
+	}
 }
 
 // specPair: the two queries of a pair must have the same parse result (identical tree, or both rejected).
@@ -387,16 +401,189 @@ func genRenderCases(rng *gen.Rng, count int, emit func(Case)) {
 	}
 }
 
+// specC13: decoding never panics; a decoded expression that passes Validate can be printed, encoded and rendered.
+func specC13(c *Case, ps []*Probe) []string {
+	var out []string
+	for _, p := range ps {
+		if p.Op != "uj" {
+			continue
+		}
+		if p.Impl["U"] == "panic" {
+			out = append(out, "json.Unmarshal into an Expression panicked")
+		}
+		if p.Impl["V"] == "panic" {
+			out = append(out, "Validate panicked on a decoded expression")
+		}
+		if p.Impl["V"] == "1" {
+			for _, f := range []string{"S", "G", "J", "R", "RP"} {
+				if p.Impl[f] == "panic" {
+					out = append(out, "a decoded expression passed Validate and then "+map[string]string{"S": "String()", "G": "%#v formatting", "J": "JSON re-encoding", "R": "Render", "RP": "RenderParam"}[f]+" panicked")
+				}
+			}
+		}
+	}
+	return out
+}
+
+func looksRegexp(s string) bool { return len(s) > 0 && s[0] == '/' && s[len(s)-1] == '/' }
+
+// kindStable: every leaf has the kind the decoder infers from its text (DESIGN F-h).
+func kindStable(in any) bool {
+	switch v := in.(type) {
+	case *expr.Expression:
+		if v == nil {
+			return true
+		}
+		switch v.Op {
+		case expr.Literal, expr.Wild, expr.Regexp:
+			switch x := v.Left.(type) {
+			case string:
+				want := expr.Literal
+				if looksRegexp(x) {
+					want = expr.Regexp
+				} else if strings.ContainsAny(x, "*?") {
+					want = expr.Wild
+				}
+				return v.Op == want
+			case float64:
+				return x != float64(int(x))
+			}
+			return true
+		}
+		return kindStable(v.Left) && kindStable(v.Right)
+	case []*expr.Expression:
+		for _, x := range v {
+			if !kindStable(x) {
+				return false
+			}
+		}
+	case *expr.RangeBoundary:
+		return kindStable(v.Min) && kindStable(v.Max)
+	}
+	return true
+}
+
+func sqlOf(f string) string {
+	if i := strings.Index(f, "|"); i >= 0 {
+		return f[:i]
+	}
+	return f
+}
+
+// specC12: the JSON encoding of a parse result round-trips.
+func specC12(c *Case, ps []*Probe) []string {
+	if c.Kind != "rt" || !utf8.ValidString(c.S) || !utf8.ValidString(c.DF) {
+		return nil
+	}
+	q := ps[0]
+	if !strings.HasPrefix(q.Impl["P"], "ok:") {
+		return nil
+	}
+	var out []string
+	if !strings.HasPrefix(q.Impl["J"], "ok:") {
+		return []string{"JSON encoding of a parse result failed: " + q.Impl["J"]}
+	}
+	if len(ps) < 2 {
+		return out
+	}
+	u := ps[1]
+	if !strings.HasPrefix(u.Impl["U"], "ok:") {
+		return []string{"decoding the JSON encoding of a parse result failed: " + u.Impl["U"]}
+	}
+	if u.Impl["V"] != "1" {
+		out = append(out, "the decoded expression does not validate")
+	}
+	if u.Impl["J"] != q.Impl["J"] {
+		out = append(out, "the decoded expression re-encodes to different bytes")
+	}
+	if u.Impl["S"] != q.Impl["S"] {
+		out = append(out, "the decoded expression prints differently")
+	}
+	if u.Impl["R"] != q.Impl["PG"] {
+		out = append(out, "the decoded expression renders different inline SQL")
+	}
+	if sqlOf(u.Impl["RP"]) != sqlOf(q.Impl["PP"]) {
+		out = append(out, "the decoded expression renders different parameterized SQL")
+	}
+	if q.Expr != nil && kindStable(q.Expr) && u.Impl["U"] != q.Impl["P"] {
+		out = append(out, "every leaf has the kind the decoder infers from its text, yet the decoded expression is not deep-equal to the original")
+	}
+	return out
+}
+
+// genJSONDocs is generator G5.
+func genJSONDocs(rng *gen.Rng, count int, emit func(Case)) {
+	for i := 0; i < count; i++ {
+		var doc, g string
+		switch rng.Intn(10) {
+		case 0, 1, 2, 3:
+			doc, g = gen.JSONExpr(rng, 1+rng.Intn(4), true), "G5-typed"
+		case 4, 5, 6, 7:
+			doc, g = gen.JSONExpr(rng, 1+rng.Intn(4), false), "G5-schema-wrong"
+		default:
+			doc, g = gen.JSONExpr(rng, 1+rng.Intn(3), rng.Chance(1, 2)), "G5-mutated"
+			for k := 1 + rng.Intn(3); k > 0; k-- {
+				doc = gen.Mutate(rng, doc)
+			}
+		}
+		emit(Case{Gen: g, Kind: "uj", S: doc, Idx: i})
+	}
+}
+
+// genRoundTrips: queries (trees, token sequences, hostile values) whose encoding is decoded again.
+func genRoundTrips(rng *gen.Rng, trees, seqs int, emit func(Case)) {
+	for i := 0; i < trees; i++ {
+		t := gen.RandomTree(rng, 1+rng.Intn(4))
+		df := ""
+		if rng.Chance(1, 4) {
+			df = gen.Pick(rng, gen.DefaultFields)
+		}
+		emit(Case{Gen: "G2-roundtrip", Kind: "rt", S: gen.Spell(rng, t.Print(), rng.Intn(3)), DF: df, Idx: i})
+	}
+	for i := 0; i < seqs; i++ {
+		n := 1 + rng.Intn(7)
+		parts := make([]string, n)
+		for k := range parts {
+			if rng.Chance(1, 3) {
+				parts[k] = gen.ValueText(rng)
+			} else {
+				parts[k] = gen.Pick(rng, gen.Alphabet)
+			}
+		}
+		emit(Case{Gen: "G4-roundtrip", Kind: "rt", S: strings.Join(parts, " "), DF: gen.Pick(rng, gen.DefaultFields), Idx: i})
+	}
+}
+
 var properties = map[string]*Property{}
 
 func init() {
-	base := func(cfg RunConfig, emit func(Case)) {
+	add := func(p *Property) { properties[p.ID] = p }
+	add(&Property{ID: "C01", Fields: fields("P", "S", "G", "PG", "PP", "J"), Spec: specC01, Generate: func(cfg RunConfig, emit func(Case)) {
 		rng := gen.NewRng(cfg.Seed, 1)
 		genTokenSeqs(tiered(cfg, 3, 4), []string{"", "df"}, emit)
 		genSampledSeqs(rng, tiered(cfg, 60000, 1500000), 4, 9, gen.DefaultFields, emit)
-	}
-	add := func(p *Property) { properties[p.ID] = p }
-	add(&Property{ID: "C01", Fields: fields("P", "S", "G", "PG", "PP", "J"), Generate: base, Spec: specC01})
+		genTrees(rng, tiered(cfg, 40000, 800000), 4, func(c Case) { c.Want = ""; c.Kind = "q"; c.DF = gen.Pick(rng, gen.DefaultFields); emit(c) })
+		for i := 0; i < tiered(cfg, 50000, 1000000); i++ {
+			emit(Case{Gen: "G4-fieldquery", Kind: "q", S: gen.FieldQuery(rng), DF: gen.Pick(rng, gen.DefaultFields), Idx: i})
+		}
+		for i := 0; i < tiered(cfg, 50000, 1000000); i++ {
+			s := gen.ByteString(rng, 1+rng.Intn(10))
+			if rng.Chance(1, 3) {
+				s = gen.Mutate(rng, gen.Spell(rng, gen.RandomTree(rng, 3).Print(), rng.Intn(3)))
+			}
+			emit(Case{Gen: "G3-bytes", Kind: "q", S: s, DF: gen.Pick(rng, gen.DefaultFields), Idx: i})
+		}
+		// adversarial shapes: a few hundred tokens against the model, 10^4 tokens on the implementation alone
+		// (no panic, no runaway: every call is under the watchdog)
+		for i, s := range gen.BigShapes(tiered(cfg, 300, 600)) {
+			emit(Case{Gen: "G3-bigshape", Kind: "q", S: s, Idx: i})
+			emit(Case{Gen: "G3-bigshape", Kind: "q", S: s, DF: "df", Idx: i})
+		}
+		for i, s := range gen.BigShapes(tiered(cfg, 2000, 10000)) {
+			emit(Case{Gen: "G3-bigshape-10k", Kind: "qimpl", S: s, Idx: i})
+			emit(Case{Gen: "G3-bigshape-10k", Kind: "qimpl", S: s, DF: "df", Idx: i})
+		}
+	}})
 	add(&Property{ID: "C16", Fields: fields("LEX"), Spec: noSpec, Generate: func(cfg RunConfig, emit func(Case)) {
 		rng := gen.NewRng(cfg.Seed, 16)
 		for n := 1; n <= tiered(cfg, 3, 4); n++ {
@@ -413,7 +600,28 @@ func init() {
 			emit(Case{Gen: "G3-bytes", Kind: "lex", S: s, Idx: i})
 		}
 	}})
-	add(&Property{ID: "C10", Fields: fields("P", "PG", "PP"), Generate: base, Spec: specC10})
+	add(&Property{ID: "C10", Fields: fields("P", "PG", "PP"), Spec: specC10, Generate: func(cfg RunConfig, emit func(Case)) {
+		rng := gen.NewRng(cfg.Seed, 10)
+		e := asKind("qwf", emit)
+		genTokenSeqs(tiered(cfg, 3, 4), []string{"", "df"}, e)
+		genSampledSeqs(rng, tiered(cfg, 60000, 1500000), 4, 9, gen.DefaultFields, e)
+		genTrees(rng, tiered(cfg, 40000, 800000), 4, e)
+		for i := 0; i < tiered(cfg, 40000, 800000); i++ {
+			e(Case{Gen: "G4-fieldquery", Kind: "q", S: gen.FieldQuery(rng), DF: gen.Pick(rng, gen.DefaultFields), Idx: i})
+		}
+		for i := 0; i < tiered(cfg, 30000, 600000); i++ {
+			s := gen.ByteString(rng, 1+rng.Intn(10))
+			e(Case{Gen: "G3-bytes", Kind: "q", S: s, DF: gen.Pick(rng, gen.DefaultFields), Idx: i})
+		}
+	}})
+	add(&Property{ID: "C13", Fields: fields("U", "V", "S", "G", "J", "R", "RP"), Spec: specC13, Generate: func(cfg RunConfig, emit func(Case)) {
+		rng := gen.NewRng(cfg.Seed, 13)
+		genJSONDocs(rng, tiered(cfg, 150000, 3000000), emit)
+	}})
+	add(&Property{ID: "C12", Fields: fields("J", "U", "V", "S", "G", "R", "RP", "P"), Spec: specC12, Generate: func(cfg RunConfig, emit func(Case)) {
+		rng := gen.NewRng(cfg.Seed, 12)
+		genRoundTrips(rng, tiered(cfg, 80000, 1500000), tiered(cfg, 60000, 1000000), emit)
+	}})
 	add(&Property{ID: "C15", Fields: fields("R"), Spec: specC15, Generate: func(cfg RunConfig, emit func(Case)) {
 		rng := gen.NewRng(cfg.Seed, 15)
 		genRenderCases(rng, tiered(cfg, 120000, 2000000), emit)
